@@ -268,6 +268,56 @@ def check_record(args):
     return out
 
 
+ATT_BASE = ['-f', '14.1', '-w', '1,3,0,0,10,4,0,10,0.001', '-w', '2,4,0,6,10,5,6,10,0.001', '--excitation-pulse=1',
+            '--load=50+5j']
+ATT_NP = {1: 2, 2: 3}
+
+
+def attach_case(args):
+    """one final state of spec/AttachForms.tla: the user's attachment options -> real antenna (wire 1 with two pulses,
+       wire 2 with three) -> as_cmdline -> read back; the bag of loaded pulses must survive (the property), the
+       written option forms are compared with the specification's Write() for coverage"""
+    rec, = args
+    out = dict(mism=[], exc=None, forms_agree=None)
+    try:
+        opts = ['--attach-load=1,all' if a['form'] == 'all' else '--attach-load=1,all,%d' % a['o'] if a['form'] == 'obj'
+                else '--attach-load=1,%d,%d' % (a['k'], a['o']) for a in rec['att']]
+        out['argv'] = ATT_BASE + opts
+        m1, msg = run_main(out['argv'])
+        if not isinstance(m1, Mininec):
+            out['mism'].append(dict(what='original-rejected', msg=msg))
+            return out
+        first = {o: min(int(p.idx) for p in g.pulses) for o, g in zip((1, 2), m1.geo)}
+        bag = lambda m: sorted(int(p.idx) for p in m.loads[0].pulses)
+        for by_geo in (False, True):
+            text = m1.as_cmdline(load_by_geo=by_geo)
+            m2, msg = run_main(tokens(text))
+            if not isinstance(m2, Mininec):
+                out['mism'].append(dict(what='written-options-rejected', by_geo=by_geo, msg=msg))
+                continue
+            if bag(m1) != bag(m2):
+                out['mism'].append(dict(what='load-pulses', by_geo=by_geo, attach_forms_spec=True))
+            # the forms the writer chose, in the specification's vocabulary
+            got = []
+            for l in text.split('\n'):
+                if l.startswith('--attach-load='):
+                    f = l.split('=')[1].split(',')
+                    if f[1] == 'all':
+                        got.append(dict(form='all', o=0, k=0) if len(f) == 2 else dict(form='obj', o=int(f[2]), k=0))
+                    elif len(f) == 3:
+                        got.append(dict(form='p', o=int(f[2]), k=int(f[1])))
+                    else:
+                        o = 1 if int(f[1]) - 1 < first[2] else 2
+                        got.append(dict(form='p', o=o, k=int(f[1]) - first[o]))
+            key = lambda a: (a['form'], a['o'], a['k'])
+            agree = sorted(map(key, got)) == sorted(map(key, rec['toks']))
+            out['forms_agree'] = agree if out['forms_agree'] is None else (out['forms_agree'] and agree)
+    except Exception as e:      # noqa
+        import traceback
+        out['exc'] = repr(e) + traceback.format_exc()[-500:]
+    return out
+
+
 def outfile_case(args):
     """the option file main() writes for --output-cmdline describes the model GIVEN (start frequency included), whether
        or not the run sweeps the frequency; read back, it gives the same model and the same first step"""
@@ -343,6 +393,33 @@ def run(tier):
     if rb.violated != 'RoundTrip':
         raise C.Machinery('TLC no longer refutes the writer variant LoadsInKindOrder = FALSE: ' + rb.out[-800:])
     chk.cov['refuted_variant_loads_numbered_in_attachment_order'] = rb.violated
+    # the compaction rule of the attachment writer (spec/AttachForms.tla): the rule of the code holds, the rule it had
+    # before fix eb437c2 (as many attachments as pulses = "all") must stay refuted; every final state is replayed
+    ra = C.tlc('AttachForms', 'MC_AttachForms.cfg', timeout=900, name='attach-forms')
+    chk.add_tlc(ra)
+    if ra.violated:
+        chk.violation(dict(kind='spec-invariant', invariant=ra.violated, cfg='MC_AttachForms.cfg'), dict(tail=ra.out[-2500:]))
+    elif not ra.ok:
+        raise C.Machinery('TLC failed on AttachForms: ' + ra.out[-1500:])
+    rc_ = C.tlc('AttachForms', 'MC_AttachForms_count.cfg', timeout=900, name='attach-forms-count')
+    if rc_.violated != 'RoundTrip':
+        raise C.Machinery('TLC no longer refutes the writer variant Rule = "count": ' + rc_.out[-800:])
+    chk.cov['refuted_variant_all_when_count_matches'] = rc_.violated
+    arecs = list(ra.printed())
+    aouts = C.parallel_map(attach_case, [(r,) for r in arecs], chunksize=8)
+    nagree = 0
+    for r, o in zip(arecs, aouts):
+        chk.case(dict(att=r['att']), len(r['att']) >= 2, sample=dict(attach=r['att'], written=r['toks']))
+        chk.traces += 1
+        if o['exc']:
+            chk.violation(dict(kind='exception', where='attach-forms'), dict(att=r['att'], exc=o['exc']))
+        for b in o['mism']:
+            chk.violation(dict(kind=b['what'], by_geo=b.get('by_geo'), attach_forms_spec=True), dict(att=r['att'], argv=o.get('argv'), info=b))
+        nagree += bool(o['forms_agree'])
+    chk.cov['attach_forms_states_replayed'] = len(arecs)
+    chk.cov['attach_forms_written_options_equal_spec'] = nagree
+    if arecs and not nagree:
+        raise C.Machinery('AttachForms.tla does not describe the writer: no written option list agrees')
     recs = {}
     rsel = C.rng('c15-select')
     for cfg, sim, frac in RUNS[tier]:
@@ -405,6 +482,13 @@ def run(tier):
 
 def replay(path):
     d = json.load(open(path))['detail']
+    if 'att' in d:
+        o = attach_case((dict(att=d['att'], toks=[]),))
+        print(json.dumps(o, indent=1, default=str))
+        return 1 if (o['mism'] or o['exc']) else 0
+    if 'spec' not in d:
+        print(json.dumps(d, indent=1, default=str)[:3000])
+        return 1
     rec = d['spec']
     rec['solve'] = True
     o = check_record((rec, C.seed()))
